@@ -24,7 +24,8 @@ ORIGIN = {3: "written by an independent sub-agent that saw only the property tex
              "object identity, copy/pickle), excluding the mechanisms of rounds 1-4",
           6: "written by an independent sub-agent that saw only the property text and a scratch worktree of /repo (nothing from /verif); round 6 asked for feature work (new parameters, methods, options, validation, logging, plug-in points) that is correct for what it advertises but breaks the property for existing usage in a corner, excluding the mechanisms of rounds 1-5",
           7: "written by an independent sub-agent that saw only the property text and a scratch worktree of /repo (nothing from /verif); round 7 asked for well-meant fixes and compatibility work that repair a genuine quirk of the code but overshoot or have a blind spot, excluding the mechanisms of rounds 1-6",
-          8: "written by an independent sub-agent that saw only the property text and a scratch worktree of /repo (nothing from /verif); round 8 asked for clean-up and modernisation work in which the thing removed or replaced was load-bearing in a way that is not visible where it stands, excluding the mechanisms of rounds 1-7"}
+          8: "written by an independent sub-agent that saw only the property text and a scratch worktree of /repo (nothing from /verif); round 8 asked for clean-up and modernisation work in which the thing removed or replaced was load-bearing in a way that is not visible where it stands, excluding the mechanisms of rounds 1-7",
+          9: "written by an independent sub-agent that saw only the property text and a scratch worktree of /repo (nothing from /verif); round 9 asked for changes made of two or more cooperating edits at different sites (functions, modules, layers), each behaviour-preserving or harmless alone, that break the property only in combination, or for a fault at a particular point of a multi-step operation, excluding the mechanisms of rounds 1-8"}
 
 
 def sh(cmd, cwd, env=None):
@@ -72,7 +73,7 @@ def one(d):
     return d, ok, conf, fired, errs, first
 
 
-with ThreadPoolExecutor(4) as ex:
+with ThreadPoolExecutor(8) as ex:
     for d, ok, conf, fired, errs, first in ex.map(one, items):
         prop = d.name.split("-")[0]
         if not ok:
